@@ -420,10 +420,11 @@ int main(int argc, char** argv) {
             for (int ci = 0; ci < NMC; ++ci) {
                 const int nstyles = 6;
                 for (int style = 0; style < nstyles; ++style) {
-                    // quick: two (class, framing) pairs per order in rotation; thorough: every class x two framings + all framings for two classes
+                    // quick: five (class, framing) pairs per order in rotation; thorough: every class x every framing
                     bool run;
-                    if (T) run = (style == (n + ci) % nstyles) || (style == (n + ci + 3) % nstyles) || ci < 2;
-                    else run = (ci == n % NMC && style == n % nstyles) || (ci == (n + 3) % NMC && style == (n + 2) % nstyles) || (ci == 1 && style == (n + 4) % nstyles && n % 4 == 0);
+                    if (T) run = true;   // every class x every framing
+                    else run = (ci == n % NMC && style == n % nstyles) || (ci == (n + 3) % NMC && style == (n + 2) % nstyles) ||
+                               (ci == (n + 5) % NMC && style == (n + 1) % nstyles) || (ci == 1 && style == (n + 4) % nstyles) || (ci == 0 && style == (n + 3) % nstyles);
                     if (!run) continue;
                     vh::Rng r(a.seed * 1000003ULL + (++cid));
                     const int cls = mf_classes[ci];
@@ -445,7 +446,7 @@ int main(int argc, char** argv) {
                     // correspondence: a prefix of the same stream with the same kind of framing
                     const bool corr = T ? (style == (n + ci) % nstyles) : (ci == n % NMC);
                     if (corr) {
-                        const int CL = (n == 3 || n == 4 || n == 63 || n == 64) ? LEN : (T ? 1500 : 400);
+                        const int CL = ((n == 3 || n == 4 || n == 63 || n == 64) && ci < 3) ? LEN : (T ? 800 : 400);
                         std::vector<double> xc(xs.begin(), xs.begin() + CL);
                         const std::vector<int> fc = gen_frames(r, CL, n, style == 0 ? 3 : style);
                         chk_mf(n, init, dflt, xc, fc, true, cid, cls, style == 0 ? 3 : style);
@@ -501,7 +502,7 @@ int main(int argc, char** argv) {
         // x = identity, reversed and NX random permutations.  Values: the integers 1..n and random increasing reals.
         const int NALL = T ? 6 : 5;
         const int NEXH = T ? 7 : 6;
-        const int NX = T ? 10 : 2;
+        const int NX = T ? 40 : 2;
         for (int n = 2; n <= NEXH; ++n) {
             std::vector<std::vector<int>> perms;
             {
